@@ -363,6 +363,8 @@ def to_expr(n, rich=False):
         return ("lambda", n)
     if k in ("MemberExpr", "CXXDependentScopeMemberExpr"):
         base = to_expr(ks[0], rich) if ks else ("this",)
+        if rich and n.get("isArrow") and base != ("this",) and not (base[0] == "un" and base[1] == "->"):
+            base = ("un", "->", base)
         return ("member", base, n.get("member") or n.get("name"), targs_text(n))
     if k == "UnresolvedMemberExpr":
         cks = [c for c in ks if c.get("kind")]
@@ -375,6 +377,8 @@ def to_expr(n, rich=False):
         if ck in ("MemberExpr", "CXXDependentScopeMemberExpr"):
             cks = kids(cal)
             base = to_expr(cks[0], rich) if cks else ("this",)
+            if rich and cal.get("isArrow") and base != ("this",) and not (base[0] == "un" and base[1] == "->"):
+                base = ("un", "->", base)       # p->f() on a dependent type: the arrow is not yet an operator call
             return ("mcall", base, cal.get("member") or cal.get("name"), targs_text(cal), args)
         if ck == "LambdaExpr":
             return ("call", ("lambda", cal), args)
